@@ -79,14 +79,27 @@ def c_map_history(ctx, args):
     m = M.CM(gen.rmap(rng, ctx.model, n))
     ident = I['identity_map'](n)
     hist = []
+    alive = []                 # earlier results (objects) with the value they had: later calls on the same or other maps must not change them
+    other_maps = [M.CM(gen.rmap(rng, ctx.model, n)) for _ in range(2)]
     for _ in range(steps):
+        for nm_, res_, was_ in alive:
+            now_ = M.oPL(res_)
+            if now_ != was_:
+                return {'kind': 'oracle', 'where': be + ':the result of an earlier %s changed after later calls (results share data)' % nm_, 'observed': now_, 'expected': was_, 'history': hist, 'tags': ['history', 'result_aliasing']}
         # two mixes: general, and 'query - sign-only update - query' (the strings, hence any string-keyed cache, stay the same)
         op = rng.choice(['inverse', 'inverse', 'compose', 'rotate', 'rotate2', 'signflip', 'transform', 'copy', 'setps'] if seed % 2 else
                         ['inverse', 'inverse', 'compose', 'rotate2', 'signflip', 'setps'])
         hist.append(op)
         cur = M.oPL(m)
         if op == 'inverse':
-            got = M.oPL(m.inverse())
+            res = m.inverse()
+            got = M.oPL(res)
+            alive.append(('inverse', res, got))
+            # inverses of OTHER maps of the same size taken while the first result is still referenced
+            o2 = rng.choice(other_maps)
+            r2 = o2.inverse()
+            alive.append(('inverse', r2, M.oPL(r2)))
+            del alive[:-6]
             want = I['inverse'](cur)
             if got != want:
                 return {'kind': 'oracle', 'where': be + ':inverse on a reused map object differs from inverse of an equal fresh map', 'observed': got, 'expected': want, 'history': hist, 'map': cur, 'tags': ['history']}
@@ -94,7 +107,9 @@ def c_map_history(ctx, args):
                 return {'kind': 'oracle', 'where': be + ':inverse (after history) is not two-sided', 'observed': got, 'expected': 'compose with the map = identity', 'history': hist, 'map': cur, 'tags': ['history']}
         elif op == 'compose':
             b = gen.rmap(rng, ctx.model, n)
-            got = M.oPL(m.compose(M.CM(b)))
+            res = m.compose(M.CM(b))
+            got = M.oPL(res)
+            alive.append(('compose', res, got))
             want = I['compose'](cur, b)
             if got != want:
                 return {'kind': 'oracle', 'where': be + ':compose on a reused map object differs from compose of an equal fresh map', 'observed': got, 'expected': want, 'history': hist, 'map': cur, 'tags': ['history']}
